@@ -21,6 +21,8 @@ import (
 type caseC06 struct {
 	Transfer kit.Transfer `json:"transfer"`
 	Dust     string       `json:"dust,omitempty"`
+	// Paused is an action kind ("fee" | "swap") the authority pauses before the packet arrives.
+	Paused string `json:"paused,omitempty"`
 }
 
 func runC06(l *world.Lab, c caseC06, rec *kit.Recorder) error {
@@ -36,6 +38,15 @@ func runC06(l *world.Lab, c caseC06, rec *kit.Recorder) error {
 		m := &kit.Machine{W: w, Ctx: ctx, Model: kit.NewState()}
 		if o := m.Do(kit.Step{Env: &kit.Env{Kind: "deposit", User: "carol", Denom: t.Denom, Amount: c.Dust}}); o.Tx.OK() {
 			dust, _ = new(big.Int).SetString(c.Dust, 10)
+		}
+	}
+	if c.Paused != "" {
+		msg, err := kit.BuildAdmin(kit.Admin{Kind: "pause_action", Action: map[string]string{"fee": "ACTION_FEE", "swap": "ACTION_SWAP"}[c.Paused]})
+		if err != nil {
+			return fmt.Errorf("harness: %w", err)
+		}
+		if res := w.Tx(ctx, msg); !res.OK() {
+			return fmt.Errorf("harness: pausing %s failed: %v", c.Paused, res.Err)
 		}
 	}
 	s := l.Begin()
@@ -80,6 +91,26 @@ func runC06(l *world.Lab, c caseC06, rec *kit.Recorder) error {
 		}
 		if len(acts) != 0 {
 			return fmt.Errorf("payload repeats an action identifier [%s]; it was refused but %d action calls were executed first", order, len(acts))
+		}
+		return nil
+	}
+	// an action that must be refused anywhere in the list refuses the whole transfer: every action
+	// is applied, in order, or the packet is not forwarded at all
+	mustRefuse, why := "", ""
+	if run.Refuse && !run.DontCare {
+		mustRefuse, why = "refusing action", run.Reason
+	}
+	if c.Paused != "" && seen[c.Paused] {
+		mustRefuse, why = "paused action", c.Paused+" is paused"
+	}
+	if mustRefuse != "" {
+		rec.Label("c06", mustRefuse+" in the list")
+		if len(kinds) >= 2 {
+			rec.Label("c06", mustRefuse+" in a list of two or more")
+			rec.NonTrivial(kit.JSON(c))
+		}
+		if out.Success {
+			return fmt.Errorf("order [%s]: %s, yet the transfer was acknowledged as a success after the calls %v: the listed actions were not all applied", order, why, s.Sites())
 		}
 		return nil
 	}
@@ -165,7 +196,7 @@ func genC06(t *rapid.T, l *world.Lab) caseC06 {
 	if A.BitLen() > 250 {
 		A = new(big.Int).Lsh(big.NewInt(1), 250) // room for the swap output
 	}
-	order := pick(t, "order", []string{"fee,swap", "swap,fee", "swap", "fee", "", "fee,fee", "swap,swap", "fee,swap,fee", "swap,fee,swap"})
+	order := pick(t, "order", []string{"fee,swap", "fee,swap", "fee,swap", "swap,fee", "swap,fee", "swap,fee", "swap", "fee", "", "fee,fee", "swap,swap", "fee,swap,fee", "swap,fee,swap"})
 	tr := kit.Transfer{Channel: ch, Denom: denom, Amount: A.String()}
 	running, amt := denom, new(big.Int).Set(A)
 	if order != "" {
@@ -173,8 +204,26 @@ func genC06(t *rapid.T, l *world.Lab) caseC06 {
 			switch k {
 			case "fee":
 				fees := kit.ValidFees(t, fmt.Sprintf("fees%d", len(tr.Actions)), amt, []string{"plain", "plain-upper"})
+				if kit.Chance(t, fmt.Sprintf("fees%d/refusing", len(tr.Actions)), 15) {
+					// a fee list the statement of C04 refuses, at this position of the list
+					r := kit.PlainUser(t, fmt.Sprintf("fees%d/refusing/rcpt", len(tr.Actions)))
+					switch pick(t, fmt.Sprintf("fees%d/refusing/how", len(tr.Actions)), []string{"all-bps", "fixed-all", "fixed-above", "zero-bps", "bps-above"}) {
+					case "all-bps":
+						fees = []kit.Fee{{Recipient: r, Bps: 10000}}
+					case "fixed-all":
+						fees = []kit.Fee{{Recipient: r, Fixed: amt.String()}}
+					case "fixed-above":
+						fees = []kit.Fee{{Recipient: r, Fixed: new(big.Int).Add(amt, big.NewInt(1)).String()}}
+					case "zero-bps":
+						fees = append(fees[:min(len(fees), kit.MaxFeeEntries-1)], kit.Fee{Recipient: r, Bps: 0})
+					default:
+						fees = append(fees[:min(len(fees), kit.MaxFeeEntries-1)], kit.Fee{Recipient: r, Bps: 10001})
+					}
+				}
 				tr.Actions = append(tr.Actions, kit.Action{Kind: "fee", Fees: fees})
-				amt = kit.ModelFees(amt, fees).Remaining
+				if v := kit.ModelFees(amt, fees); v.Remaining.Sign() > 0 {
+					amt = v.Remaining
+				}
 			case "swap":
 				tr.Actions = append(tr.Actions, kit.Action{Kind: "swap"})
 				running, amt = world.SwapDenom, kit.SwapOut(amt)
@@ -188,6 +237,9 @@ func genC06(t *rapid.T, l *world.Lab) caseC06 {
 	c := caseC06{Transfer: tr}
 	if kit.Chance(t, "dust", 25) && denom != world.Uhuge {
 		c.Dust = "777"
+	}
+	if kit.Chance(t, "paused", 15) {
+		c.Paused = pick(t, "paused/which", []string{"fee", "swap"})
 	}
 	return c
 }
@@ -206,6 +258,8 @@ func TestC06Orders(t *testing.T) {
 		rec.Require("order", o, 10)
 	}
 	rec.Require("c06", "success", 50)
+	rec.Require("c06", "refusing action in a list of two or more", 10)
+	rec.Require("c06", "paused action in a list of two or more", 10)
 }
 
 func init() {
